@@ -16,6 +16,32 @@
 //! "QUERY without question" and "octets remain": after the last counted
 //! record.
 
+//!
+//! Oracle decisions (where the statements under-determine the behaviour; both
+//! behaviours are accepted and the case is counted in its own outcome class):
+//!
+//! 1. OPT whose option RDATA is malformed, OPT/TSIG whose owner cannot be
+//!    parsed, TSIG whose RDATA is malformed: not in C08's list, RCODE not
+//!    prescribed (`ANY`); C09 still demands the OPT in the response.
+//! 2. Two prescribed problems at the same OPT record (version != 0 together
+//!    with a non-root owner, or either with malformed options): the statements
+//!    do not order them; FORMERR and BADVERS are both accepted.
+//! 3. TSIG TTL field with the top bit set (0x80000000..): "wrong TTL" read
+//!    literally, zero under RFC 2181 §8 (how quandary's `Ttl` reads it); both
+//!    readings accepted. TTL 1..0x7fffffff must give FORMERR.
+//! 4. Compression pointers in a QNAME / OPT owner / TSIG owner: "prior
+//!    occurrence" is read both as "before the pointer" and as "before the
+//!    chunk containing the pointer" (quandary's documented rule, C14); if the
+//!    two readings disagree, either verdict is accepted.
+//! 5. Over UDP a response that cannot physically hold the TSIG RR (question +
+//!    TSIG with long names > 512 / negotiated size) is sent with TC and
+//!    without TSIG (DESIGN.md §7a C10, repair of D3); this is accepted instead
+//!    of the FORMERR / NOTAUTH the scan would otherwise demand.
+//! 6. Converse of C08: a request in which the scanner finds no problem must
+//!    not be answered FORMERR (D15 was recorded against C08 in this form).
+//! 7. QDCOUNT > 1, QR set, fewer than 12 octets: no response expected (C03);
+//!    C07-C09 demand nothing there.
+
 use qvlib::reftsig::{self, Alg};
 use qvlib::wire::{self, t, PtrRule};
 
@@ -424,7 +450,6 @@ pub fn scan_all(msg: &[u8], cfg: &ScanCfg) -> Vec<Scan> {
 
 #[derive(Clone, Debug)]
 pub struct Obs {
-    pub rcode: u8,
     /// 12-bit RCODE including the OPT's upper bits.
     pub ext: u16,
     pub aa: bool,
@@ -453,7 +478,6 @@ pub fn observe(resp: &[u8]) -> Result<Obs, String> {
     let n_tsig = m.all_rrs().filter(|r| r.typ == t::TSIG).count();
     let opt = m.all_rrs().find(|r| r.typ == t::OPT).map(|r| (r.name.clone(), r.class, r.ttl, r.rdata_raw.len()));
     Ok(Obs {
-        rcode: m.header.rcode,
         ext: m.ext_rcode(),
         aa: m.header.aa,
         tc: m.header.tc,
